@@ -85,6 +85,12 @@ func startWorker(self, cfgPath string) (*workerProc, error) {
 	return w, nil
 }
 
+func (w *workerProc) kill() {
+	if w.cmd != nil && w.cmd.Process != nil {
+		w.cmd.Process.Kill()
+	}
+}
+
 func (w *workerProc) stop() {
 	if w.cmd != nil && w.cmd.Process != nil {
 		w.cmd.Process.Kill()
@@ -97,6 +103,8 @@ type checkOpts struct {
 	jobs              int
 	verif, repo       string
 	jobTmo            time.Duration
+	failFastAfter     int
+	skipped           int
 	keep              bool
 	noReplay          bool
 	seed              int64
@@ -113,6 +121,7 @@ func checkMain(args []string) int {
 	fs.StringVar(&o.verif, "verif", "/verif", "verification directory")
 	fs.StringVar(&o.repo, "repo", "/repo", "repository under test")
 	fs.DurationVar(&o.jobTmo, "jobtmo", 0, "per job wall limit")
+	fs.IntVar(&o.failFastAfter, "failfast", 6, "stop starting jobs after this many jobs with counterexample candidates (0: never)")
 	fs.BoolVar(&o.keep, "keep", false, "keep temp dir")
 	fs.StringVar(&o.choices, "choices", "", "comma separated initial choice vector (debugging)")
 	fs.BoolVar(&o.noReplay, "noreplay", false, "skip native replay (debugging only; never exits 0/1)")
@@ -238,6 +247,11 @@ func runCheck(o *checkOpts) int {
 	nworkers := o.jobs
 	var wg sync.WaitGroup
 	started := 0
+	// fail fast: once failFastAfter jobs have produced counterexample candidates, no further jobs
+	// are started and running ones are aborted (a breaking change often makes many other jobs
+	// explode); the verdict needs one replay-confirmed counterexample only
+	violJobs, stopEarly := 0, false
+	live := map[*workerProc]bool{}
 	spawn := func() {
 		started++
 		wg.Add(1)
@@ -271,13 +285,49 @@ func runCheck(o *checkOpts) int {
 						mu.Unlock()
 						return
 					}
+					mu.Lock()
+					live[w] = true
+					mu.Unlock()
 				}
 				res := runOnWorker(w, job, o.jobTmo)
 				if res.Error != "" && strings.HasPrefix(res.Error, "worker:") {
+					mu.Lock()
+					delete(live, w)
+					mu.Unlock()
 					w.stop()
 					w = nil
 				}
 				mu.Lock()
+				if stopEarly && strings.HasPrefix(res.Error, "worker:") {
+					// aborted by the early stop
+					o.skipped++
+					pending--
+					cond.Broadcast()
+					mu.Unlock()
+					continue
+				}
+				if res.Split == nil && hasViolationCandidate(&res) && o.failFastAfter > 0 {
+					violJobs++
+					if violJobs >= o.failFastAfter && !stopEarly {
+						stopEarly = true
+						o.skipped += len(queue)
+						pending -= len(queue)
+						queue = nil
+						for lw := range live {
+							if lw != w {
+								lw.kill()
+							}
+						}
+					}
+				}
+				if stopEarly && res.Split != nil {
+					o.skipped++
+					res.Split = nil
+					pending--
+					cond.Broadcast()
+					mu.Unlock()
+					continue
+				}
 				if res.Split != nil {
 					for v := res.Split.Lo; v <= res.Split.Hi; v++ {
 						ch := append(append([]int(nil), job.Choices...), v)
@@ -311,6 +361,20 @@ func runCheck(o *checkOpts) int {
 		return fmt.Sprint(results[i].Choices) < fmt.Sprint(results[j].Choices)
 	})
 	return report(o, tierN, known, results, hs, tmp, t0)
+}
+
+func hasViolationCandidate(r *JobResult) bool {
+	for i := range r.Obls {
+		ob := &r.Obls[i]
+		if ob.Status != "sat" || ob.Witness || ob.Kind == "reach" || ob.Kind == "vacuity" {
+			continue
+		}
+		if (ob.Kind == "unwind" || ob.Kind == "alloc") && !r.UnwindV {
+			continue
+		}
+		return true
+	}
+	return false
 }
 
 func runOnWorker(w *workerProc, job Job, tmo time.Duration) JobResult {
@@ -524,6 +588,13 @@ func report(o *checkOpts, tierN int, known *knownFile, results []JobResult, hs [
 		}
 	}
 
+	if o.skipped > 0 {
+		problems = append(problems, fmt.Sprintf("STOPPED-EARLY after %d jobs with counterexample candidates: %d jobs not run or aborted (nothing is claimed for them)", o.failFastAfter, o.skipped))
+		if exit == 0 {
+			exit = 2
+		}
+		siteDead = map[string]string{} // vacuity of assertion sites cannot be judged on a partial run
+	}
 	var deadKeys []string
 	for k := range siteDead {
 		if !siteLive[k] {
